@@ -257,7 +257,7 @@ def same_uri(ctx):
         ctx.check(isinstance(kw.get("lookup"), ast.Name) and kw["lookup"].id == "self", "_load.lookup", db.where(c), "lookup=self missing", "lookup=self")
     ck = db.func("lookup.TemplateLookup._check")
     for c in [n for n in walk_func(ck) if isinstance(n, ast.Call) and dotted(n.func) == "self._load"]:
-        ctx.check(len(c.args) == 2 and src(c.args[0]) == "template.filename" and src(c.args[1]) == "uri", "_check.reload", db.where(c),
+        ctx.check(len(c.args) == 2 and src(c.args[0]) == ck.args.args[2].arg + ".filename" and src(c.args[1]) == ck.args.args[1].arg, "_check.reload", db.where(c),
                   "_check reloads %s instead of (template.filename, uri)" % src(c), "reloads the stored filename under the same uri")
 
 
